@@ -55,7 +55,7 @@ def configs(tier, mode, pid):
             # unsat support makes these constraints exceed the wall-clock guard; C02 has dedicated unsat-support obligations
             my_sets = my_sets.replace("7=0,1", "7=0")
         cfgs.append(dict(tag="c%d.opt%d" % (ci, opt), env={"VERIF_FIX": "0=%d,3=%d" % (ci, opt), "VERIF_SETS": my_sets, "VERIF_TIE": "1" if tier == "quick" else "0", "VERIF_NSOL": nsol, "VERIF_CALL_LIMIT": lim,
-                                                "VERIF_MODE": mode, "VERIF_IGNORED_LOG": log}, only=["solve"], timeout=to))
+                                                "VERIF_MODE": mode, "VERIF_IGNORED_LOG": log}, only=["solve"], timeout=to, timing_dependent=True))
     return cfgs, log, sets, nsol
 
 
